@@ -10,11 +10,13 @@ import Acme.Driver.Avl
 import Acme.Driver.CanId
 import Acme.Driver.BusLoad
 import Acme.Driver.Arith
+import Acme.Driver.Payload
 
 open Acme.Driver
 
 structure DState where
   avl : AvlD.St := AvlD.init
+  pl : PayloadD.St := {}
 
 def stepLine (s : DState) (line : String) : DState × String :=
   let toks := (line.splitOn " ").filter (· ≠ "")
@@ -24,6 +26,7 @@ def stepLine (s : DState) (line : String) : DState × String :=
   | "canid" :: rest => (s, CanIdD.handle rest)
   | "busload" :: rest => (s, BusLoadD.handle rest)
   | "arith" :: rest => (s, ArithD.handle rest)
+  | "pl" :: rest => let (a, o) := PayloadD.handle s.pl rest; ({ s with pl := a }, o)
   | _ => (s, "bad-op")
 
 partial def loop (hin : IO.FS.Stream) (hout : IO.FS.Stream) (s : DState) : IO Unit := do
